@@ -384,9 +384,13 @@ def filter_sphinx_inventories(
     for inv_name, inv_data in inventories.items():
         if not match_with_wildcard(inv_name, invs):
             continue
-        for domain_obj_name, data in inv_data.items():
-            if ":" not in domain_obj_name:
-                continue
+        # group the `domain:type` keys by domain (in order of first occurrence),
+        # to yield in the same order as for the native format, which nests them
+        keys = [key for key in inv_data if ":" in key]
+        domain_names = [key.split(":", 1)[0] for key in keys]
+        keys.sort(key=lambda key: domain_names.index(key.split(":", 1)[0]))
+        for domain_obj_name in keys:
+            data = inv_data[domain_obj_name]
             domain_name, obj_type = domain_obj_name.split(":", 1)
             if not (
                 match_with_wildcard(domain_name, domains)
